@@ -66,3 +66,27 @@ func (t *DialTracker) Unclosed() []string {
 	}
 	return out
 }
+
+// BlackholeListenPacket has the signature of gortsplib.Client.ListenPacket: the sockets it
+// returns can send, but every datagram sent to them is discarded (a path that drops UDP).
+func BlackholeListenPacket(network, address string) (net.PacketConn, error) {
+	pc, err := net.ListenPacket(network, address)
+	if err != nil {
+		return nil, err
+	}
+	uc, ok := pc.(*net.UDPConn)
+	if !ok {
+		return pc, nil
+	}
+	return blackholeConn{uc}, nil
+}
+
+type blackholeConn struct{ *net.UDPConn }
+
+func (b blackholeConn) ReadFrom(p []byte) (int, net.Addr, error) {
+	for {
+		if _, _, err := b.UDPConn.ReadFrom(p); err != nil {
+			return 0, nil, err
+		}
+	}
+}
